@@ -182,15 +182,16 @@ func factsOf(n *ANode, path []string, multi []bool, out *[]Fact) {
 // ---------- generation ----------
 
 type DocGen struct {
-	prime       *big.Int // integers are generated inside the ranges of this prime (default: BN254)
-	r           *Rng
-	sch         *Schema
-	nid         int
-	maxDep      int
-	noGraph     bool
-	emptyOK     bool // allow empty strings
-	multiPct    int  // chance (percent) that a field is multi-valued; 0 = default 35
-	nativeInStr bool // JSON numbers and booleans may appear under string and custom datatypes
+	prime        *big.Int // integers are generated inside the ranges of this prime (default: BN254)
+	r            *Rng
+	sch          *Schema
+	nid          int
+	maxDep       int
+	noGraph      bool
+	emptyOK      bool // allow empty strings
+	multiPct     int  // chance (percent) that a field is multi-valued; 0 = default 35
+	nativeInStr  bool // JSON numbers and booleans may appear under string and custom datatypes
+	noAliasTerms bool // the context does not define the usual aliases id -> @id and type -> @type (documents then use the keywords)
 }
 
 var xsdLitTypes = []string{"integer", "nonNegativeInteger", "positiveInteger", "negativeInteger", "nonPositiveInteger", "boolean", "dateTime", "double", "string", "", "", "custom"}
@@ -454,7 +455,7 @@ func (g *DocGen) bigWhole(dt string, negative bool) *ALit {
 var words = []string{"alpha", "beta", "γάμμα", "delta 4", "e", "x y z", "1", "true", "2020-01-01", "\"q\"", "tab\there", "ünï", "long-" + strings.Repeat("abcdefghij", 7)}
 
 func (g *DocGen) str() string {
-	if g.emptyOK && g.r.Chance(3) {
+	if g.emptyOK && g.r.Chance(6) {
 		return ""
 	}
 	s := g.r.Pick(words) + strconv.Itoa(g.r.Intn(1000))
@@ -470,9 +471,9 @@ func (g *DocGen) node(td *TypeDef, depth int, forceID bool) *ANode {
 	if forceID || g.r.Chance(40) {
 		n.ID = g.iri("n")
 	}
-	for _, t := range td.Terms {
-		if g.r.Chance(15) && len(td.Terms) > 1 {
-			continue // optional field absent
+	for ti, t := range td.Terms {
+		if g.r.Chance(15) && len(td.Terms) > 1 && !(ti == len(td.Terms)-1 && len(n.Fields) == 0) {
+			continue // optional field absent (but never all of them: a node without any statement is not a tree-shaped document's node)
 		}
 		f := AField{Term: t}
 		cnt := 1
@@ -581,7 +582,10 @@ func (g *DocGen) allTypes(td *TypeDef, out *[]*TypeDef) {
 
 // the context document: every type is a top-level term with a type-scoped context
 func (g *DocGen) contextObj(p *Presentation) OObj {
-	c := OObj{{"@version", RawNum("1.1")}, {"ex", vocabBase}, {"xsd", xsdNS}, {"id", "@id"}, {"type", "@type"}}
+	c := OObj{{"@version", RawNum("1.1")}, {"ex", vocabBase}, {"xsd", xsdNS}}
+	if !g.noAliasTerms {
+		c = append(c, KV{"id", "@id"}, KV{"type", "@type"})
+	}
 	var tds []*TypeDef
 	g.allTypes(g.sch.Root, &tds)
 	for _, td := range tds {
@@ -621,7 +625,7 @@ func (g *DocGen) renderVal(v AVal, t *Term, p *Presentation, multi bool) any {
 func (g *DocGen) renderNode(n *ANode, p *Presentation) OObj {
 	o := OObj{}
 	idk, tyk := "@id", "@type"
-	if p.aliases {
+	if p.aliases && !g.noAliasTerms {
 		idk, tyk = "id", "type"
 	}
 	if n.ID != "" {
